@@ -54,7 +54,7 @@ func VerifC17ClientOptions() {
 	aWhich, bWhich := verif.Choice("A.rpc", 3), verif.Choice("B.rpc", 3)
 	aHdr, aCT := verif.Bool("A.perCallHeader"), verif.Bool("A.perCallContentType")
 	bHdr, bCT := verif.Bool("B.perCallHeader"), verif.Bool("B.perCallContentType")
-	hvA, hvB := verif.StringIn("A.headerValue", 1, "ab"), verif.StringIn("B.headerValue", 1, "ab")
+	hvA, hvB := verif.StringIn("A.headerValue", verif.L(1), "ab"), verif.StringIn("B.headerValue", verif.L(1), "ab")
 	c1, t1 := c17NewClient()
 	c17Call(c1, aWhich, aHdr, aCT, hvA)
 	c17Call(c1, bWhich, bHdr, bCT, hvB)
